@@ -53,9 +53,9 @@ type modelScn struct {
 
 func expArgs(th bool) []int {
 	if th {
-		return []int{10, 14, 18, 40, 200}
+		return []int{10, 12, 14, 40, 200}
 	}
-	return []int{10, 14}
+	return []int{10, 12}
 }
 
 func fixed(a ...int) func(bool) []int { return func(bool) []int { return a } }
@@ -65,19 +65,19 @@ func deep(extra ...int) func(bool) []int {
 
 var modelScns = []modelScn{
 	{"union-depth", deep(4900)}, {"intersection-depth", deep(4900)}, {"diffbase-depth", deep(4900)}, {"diffsub-depth", deep(4900)},
-	{"relations", fixed(1000, 10000)}, {"types", fixed(100, 101, 10000)}, {"restrictions", fixed(10000)},
+	{"relations", fixed(1000, 10000)}, {"types", fixed(100, 101, 1000)}, {"restrictions", fixed(10000)},
 	{"computed-chain", func(th bool) []int {
 		if th {
 			return []int{10, 100, 300, 600, 3000, 10000}
 		}
-		return []int{10, 100, 300}
+		return []int{10, 100}
 	}}, {"computed-cycle", fixed(1, 2, 3, 50)},
 	{"ttu-chain", fixed(10, 24, 26, 99)}, {"ttu-self", fixed(0)}, {"ttu-self-noentry", fixed(0)}, {"userset-self", fixed(0)},
 	{"exp-union", func(th bool) []int {
 		if th {
-			return []int{10, 14, 18, 40, 200}
+			return []int{10, 12, 14, 40, 200}
 		}
-		return []int{10, 14, 40}
+		return []int{10, 12, 40}
 	}},
 	{"exp-intersection", expArgs}, {"exp-exclusion", expArgs},
 	{"union-wide", fixed(1000, 10000)},
@@ -378,24 +378,26 @@ var storedTupleRPCs = append(append([]string{}, graphRPCs...), "Read", "ReadChan
 // cyclic and wide data (valid tuples, written through the API)
 
 type cyclicScn struct {
-	Name string
-	Args []int
+	Name     string
+	Args     []int
+	QuickOne int    // quick tier: this argument is run for QuickRPC under the default configuration only
+	QuickRPC string
 }
 
 var cyclicScns = []cyclicScn{
-	{"userset-cycle", []int{2, 3, 50}},
-	{"stored-selfloop", []int{1}},
-	{"ttu-cycle", []int{1, 2, 3, 50}},
-	{"ctx-userset-cycle", []int{2, 3, 50}},
-	{"ctx-ttu-cycle", []int{2, 3, 50}},
-	{"group-chain", []int{24, 26, 100, 1000}},
-	{"folder-chain", []int{24, 26, 100, 1000}},
-	{"fanout-users", []int{5000}},
-	{"fanout-usersets", []int{5000}},
-	{"fanout-ttu", []int{5000}},
-	{"fanout-objects", []int{5000}},
-	{"star-cycle", []int{5000}},
-	{"dense-cycle", []int{12}},
+	{Name: "userset-cycle", Args: []int{2, 3, 50}},
+	{Name: "stored-selfloop", Args: []int{1}},
+	{Name: "ttu-cycle", Args: []int{1, 2, 3, 50}},
+	{Name: "ctx-userset-cycle", Args: []int{2, 3, 50}},
+	{Name: "ctx-ttu-cycle", Args: []int{2, 3, 50}},
+	{Name: "group-chain", Args: []int{24, 26, 100, 1000}},
+	{Name: "folder-chain", Args: []int{24, 26, 100, 1000}},
+	{Name: "fanout-users", Args: []int{5000}},
+	{Name: "fanout-usersets", Args: []int{5000}},
+	{Name: "fanout-ttu", Args: []int{5000}},
+	{Name: "fanout-objects", Args: []int{5000}},
+	{Name: "star-cycle", Args: []int{5000}},
+	{Name: "dense-cycle", Args: []int{6, 8}},
 }
 
 // cyclicDirect: scenarios whose tuples are written through the datastore because Write refuses them.
